@@ -421,6 +421,10 @@ class Fingerprints(Harness):
             kex = make_kex(M, L)
             for t in self.types:
                 kex.set_host_key(t, ('BLOB-' + t).encode() if t not in ('ssh-rsa', 'rsa-sha2-256', 'rsa-sha2-512') else b'BLOB-RSA', 2048, '', 0)
+            if any(t in ('ssh-rsa', 'rsa-sha2-256', 'rsa-sha2-512') for t in self.types):
+                # the probe records an RSA key under all three family names, whether or not the server advertises each of them (HostKeyTest.perform_test)
+                for t in ('ssh-rsa', 'rsa-sha2-256', 'rsa-sha2-512'):
+                    kex.set_host_key(t, b'BLOB-RSA', 2048, '', 0)
             cj = OL.CaptureJson()
             with AE.patched(M.ssh_audit, json=cj):
                 r = guarded(M.ssh_audit.output, out, aconf, M.banner.Banner((2, 0), 'x', None, True), [], None, kex)
@@ -498,7 +502,7 @@ def tasks(tier):
     for kt, ca in [('ssh-rsa', ''), ('rsa-sha2-512', ''), ('ssh-ed25519', ''), ('ssh-rsa-cert-v01@openssh.com', 'ssh-rsa'), ('ssh-rsa-cert-v01@openssh.com', 'ssh-ed25519'),
                    ('ssh-ed25519-cert-v01@openssh.com', 'ssh-rsa'), ('ssh-ed25519-cert-v01@openssh.com', 'ecdsa-sha2-nistp256')]:
         T.append(Reporting(kt, ca))
-    for types in [('ssh-rsa',), ('rsa-sha2-512', 'rsa-sha2-256', 'ssh-rsa'), ('ssh-ed25519', 'ssh-rsa'), ('ssh-ed25519-cert-v01@openssh.com', 'ssh-ed25519'),
+    for types in [('ssh-rsa',), ('rsa-sha2-512',), ('rsa-sha2-256', 'ssh-ed25519'), ('rsa-sha2-512', 'rsa-sha2-256', 'ssh-rsa'), ('ssh-ed25519', 'ssh-rsa'), ('ssh-ed25519-cert-v01@openssh.com', 'ssh-ed25519'),
                   ('ecdsa-sha2-nistp256', 'ssh-dss', 'ssh-ed25519'), ('rsa-sha2-256', 'ssh-rsa-cert-v01@openssh.com')]:
         T.append(Fingerprints(types))
     return T
